@@ -12,6 +12,7 @@ class MemoryStorage(object):
         # Properties
         self.block_size = block_size
         self.array = bytearray()
+        self.cursor = 0
 
     def __len__(self):
         return len(self.array)
@@ -25,7 +26,13 @@ class MemoryStorage(object):
         self.array = bytearray()
 
     # Method reading a block in the bytearray
-    def read(self, block):
+    def read(self, block=None):
+        # Like FileStorage, reading without a block continues after the last read
+        if block is None:
+            block = self.cursor
+
+        self.cursor = block + self.block_size
+
         try:
             return self.array[block : block + self.block_size] or None
         except IndexError:
@@ -42,5 +49,7 @@ class MemoryStorage(object):
             block = len(self.array) - self.block_size
         else:
             self.array[block : block + self.block_size] = data
+
+        self.cursor = block + len(data)
 
         return block
